@@ -9,7 +9,7 @@ from ..gen import J, JI
 
 PROP = "C05"
 HOSTILE = ('scale', 'mean', 'special')
-MONITORS = ("WF", "DENS", "CACHE")
+MONITORS = ("WF", "DENS", "CACHE", "FORM")
 ANCHORS = [("pdf.py", "GaussianPDF.get_marginal"), ("pdf.py", "GaussianDiagPDF.get_marginal"),
            ("pdf.py", "GaussianPDF.get_density_of_linear_sum")]
 RULE = ("cell = (full|diag density, R, D, index list (all non-empty duplicate-free lists in random "
